@@ -241,13 +241,17 @@ func PublishMetadataSnapshot(ctx context.Context, endpoints []string, snapshot m
 				}
 				continue
 			}
-			existing := metadata.ClusterMetadata{}
+			// Merge into a copy: after a conflict the next attempt must merge
+			// the operator's own topics with the snapshot as it is then, not
+			// with what an earlier attempt already copied out of an older one.
+			merged := snapshot
 			if len(resp.Kvs) > 0 {
+				existing := metadata.ClusterMetadata{}
 				if err := json.Unmarshal(resp.Kvs[0].Value, &existing); err == nil {
-					snapshot = mergeSnapshots(snapshot, existing)
+					merged = mergeSnapshots(snapshot, existing)
 				}
 			}
-			payload, err := json.Marshal(snapshot)
+			payload, err := json.Marshal(merged)
 			if err != nil {
 				_ = cli.Close()
 				return err
